@@ -145,6 +145,7 @@ class Transformer(ast.NodeTransformer):
         self.loop_counter = [0]  # stack: per function
         self.loops = []          # (qualname, ordinal, lineno)
         self.tmp = 0
+        self.fn_locals = []      # stack: local variable names of the enclosing functions
 
     # -- scopes -------------------------------------------------------------------------
     def _qual(self):
@@ -153,6 +154,18 @@ class Transformer(ast.NodeTransformer):
     def visit_FunctionDef(self, node):
         self.scope.append(node.name)
         self.loop_counter.append(0)
+        args = node.args
+        fl = [a.arg for a in args.args + args.kwonlyargs + args.posonlyargs]
+        if args.vararg:
+            fl.append(args.vararg.arg)
+        if args.kwarg:
+            fl.append(args.kwarg.arg)
+        fl += _assigned_names(node.body)
+        glob = set()
+        for x in ast.walk(node):
+            if isinstance(x, (ast.Global, ast.Nonlocal)):
+                glob.update(x.names)
+        self.fn_locals.append([x for x in fl if x not in glob])
         # T1
         node.returns = None
         for a in node.args.args + node.args.kwonlyargs + node.args.posonlyargs:
@@ -168,6 +181,7 @@ class Transformer(ast.NodeTransformer):
         node.body = self._body(node.body)
         self.scope.pop()
         self.loop_counter.pop()
+        self.fn_locals.pop()
         self.scope.pop()
         return node
 
@@ -309,6 +323,8 @@ class Transformer(ast.NodeTransformer):
         names = _assigned_names(orig.body + [ast.Expr(orig.target)])
         names = [x for x in names if not x.startswith("VC_")]
         loaded = [x for x in _loaded_names(orig.body) if x not in names]
+        fl = self.fn_locals[-1] if self.fn_locals else []
+        names = names + [x for x in loaded if x in fl and not x.startswith("VC_")]
         node.iter = _name(IT)
         cut = self._cut(L, BRK, names, loaded, cut_body, cut_else,
                         pre=[ast.Assign(targets=[self.visit(copy.deepcopy(orig.target))],
@@ -344,6 +360,8 @@ class Transformer(ast.NodeTransformer):
         L, BRK = "VC_L%d" % n, "VC_brk%d" % n
         names = [x for x in _assigned_names(orig.body) if not x.startswith("VC_")]
         loaded = [x for x in _loaded_names(orig.body + [ast.Expr(orig.test)]) if x not in names]
+        fl = self.fn_locals[-1] if self.fn_locals else []
+        names = names + [x for x in loaded if x in fl and not x.startswith("VC_")]
         cut = self._cut(L, BRK, names, loaded, cut_body, cut_else, pre=[], test=self.visit(copy.deepcopy(orig.test)))
         stmts = [
             ast.Assign(targets=[_name(L, ast.Store())],
@@ -402,7 +420,10 @@ class NS:
 
 
 class LoopSpec:
-    def __init__(self, module, qualname, ordinal, inv, havoc=None, variant=None, name=None, on_exit=None):
+    def __init__(self, module, qualname, ordinal, inv, havoc=None, variant=None, name=None, on_exit=None,
+                 ghost_init=None, ghost_next=None):
+        self.ghost_init = ghost_init    # dict name -> initial value (ghost variables of a while loop)
+        self.ghost_next = ghost_next    # L -> dict name -> value after one iteration
         self.key = (module, qualname, ordinal)
         self.inv = inv              # L -> list of (label, cond)
         self.havoc = havoc or {}    # name -> maker(L)
@@ -419,18 +440,20 @@ class LoopDriver:
         self.i = None
         self.n = None
         self.v0 = None
-        self.inplace = []
+        self.loaded = set()
+        self.g = {}
         c = core.cur()
         if iterable is not None:
             n = models.m_len(iterable)
             self.n = n
         self.c = c
 
-    def _ns(self, loc, i):
-        return NS(loc, i=i, n=self.n, seq=self.it)
+    def _ns(self, loc, i, g=None):
+        return NS(loc, i=i, n=self.n, seq=self.it, **(self.g if g is None else g))
 
     def init(self, loc):
-        for label, cond in self.spec.inv(self._ns(loc, 0)):
+        g0 = dict(self.spec.ghost_init) if self.spec.ghost_init else {}
+        for label, cond in self.spec.inv(self._ns(loc, 0, g0)):
             self.c.prove("%s/%s.init.%s" % (self.prefix, self.spec.name, label), cond)
 
     def havoc(self, names, loc):
@@ -441,23 +464,34 @@ class LoopDriver:
             c.add(i >= 0)
             c.add(i <= core.toint(self.n))
             self.i = core.SInt(i)
+        if self.spec.ghost_init:
+            for k in self.spec.ghost_init:
+                self.g[k] = core.SInt(z3.Int(c.fresh(k)))
         ns = self._ns(loc, self.i)
-        for mk in self.inplace:
-            mk(ns)
         out = []
         for x in names:
             mk = self.spec.havoc.get(x)
             if x == "VC_dummy":
                 out.append(None)
             elif mk is None:
-                out.append(Poison(x))
+                out.append(loc[x] if (x in self.loaded and x in loc) else Poison(x))
             elif mk == "keep":
                 out.append(loc.get(x, Poison(x)))
             else:
-                out.append(mk(ns))
+                v = mk(ns)
+                out.append(v)
+                setattr(ns, x, v)
         return tuple(out)
 
+    def _ghosts(self, vals):
+        for k, v in vals.items():
+            self.g[k] = v
+
     def check_frame(self, loaded, loc, glob):
+        self.loaded = set(loaded)
+        self._check_frame(loaded, loc, glob)
+
+    def _check_frame(self, loaded, loc, glob):
         """every mutable object that the loop body can reach through a name it does not assign must
         be described by the contract (havoc maker, or an explicit 'keep' = not mutated by the loop)"""
         for x in loaded:
@@ -465,8 +499,8 @@ class LoopDriver:
                 v = self.spec.havoc[x]
                 if v == "keep":
                     self.c.run.kept.add("%s keeps %s" % (self.spec.name, x))
-                else:
-                    self.inplace.append(v)     # in-place havoc of an object that is not rebound
+                elif x not in loc:
+                    raise Undecided("loop contract %s havocs %r which is not a local variable" % (self.spec.name, x))
                 continue
             if x in loc:
                 val = loc[x]
@@ -493,7 +527,11 @@ class LoopDriver:
 
     def preserve(self, loc):
         i2 = None if self.i is None else self.i + 1
-        ns = self._ns(loc, i2)
+        g2 = None
+        if self.spec.ghost_next:
+            g2 = dict(self.g)
+            g2.update(self.spec.ghost_next(self._ns(loc, self.i)))
+        ns = self._ns(loc, i2, g2)
         for label, cond in self.spec.inv(ns):
             self.c.prove("%s/%s.preserve.%s" % (self.prefix, self.spec.name, label), cond)
         if self.spec.variant is not None:
